@@ -44,7 +44,7 @@ def main():
         "engines": [{"name": "gosym", "path": "/verif/engine", "serves_properties": [c["property_id"] for c in checks],
                      "kind_free_text": "own Go-SSA path-forking symbolic interpreter (golang.org/x/tools v0.29.0 go/ssa) emitting SMT-LIB2 bit-vector queries to z3 4.8.12 (cvc5 1.0 / z3 5.1.0 cross-check); harnesses are in-package Go overlay files executed both symbolically and natively (replay)"}],
         "checks": checks,
-        "notes": "Exit codes: 0 held within bounds; 1 + VIOLATION line (natively replayed counterexample); 2 + INCONCLUSIVE line (harness no longer loads against the tree, solver unknown, bound exceeded) - never on the unchanged tree. Known findings: /verif/known_findings.txt.",
+        "notes": "Exit codes: 0 held within bounds; 1 + VIOLATION line (counterexample replayed first: natively with go test -overlay; for the command-line tools against the real binaries; for harnesses that depend on substituted functions or on a pre-emptive schedule by concrete re-execution of the real code in the engine - DESIGN.md 8.2); 2 + INCONCLUSIVE line (harness no longer loads against the tree, solver unknown, bound exceeded, counterexample not reproduced) - never on the unchanged tree. Known findings: /verif/known_findings.txt.",
         "not_applicable": na,
     }
     json.dump(m, open('/verif/MANIFEST.json', 'w'), indent=1)
